@@ -72,6 +72,32 @@ pub fn clone_indep<T: Q, const N: usize>() {
     post(&mut a, &w2, ALL);
 }
 
+/// `b.clone_from(&a)`: afterwards `b` is what `a.clone()` would have been -- the same order of
+/// iteration and the same heap arrangement (so that ties are broken alike), whatever `b` held
+/// before; in particular when `b` held the same pairs in a different arrangement.
+pub fn clone_from<T: Q, const N: usize, const M: usize>() {
+    let (a, gh) = state::<T, N>(Pre::Inv, Tables::Any);
+    let gb = ghost::<M>(T::DOUBLE, Pre::Inv, Tables::Any);
+    let mut b: T = build::<T, M>(&gb, 1);
+    let same_pairs = N == M && {
+        let (ta, tb) = (Tab::of_ghost(&gh), Tab::of_ghost(&gb));
+        let mut ok = ta.mask == tb.mask;
+        let mut s = 0;
+        while s < N {
+            ok &= tb.get(gh.key[s]) == Some((gh.pay[s], gh.prio[s]));
+            s += 1;
+        }
+        ok
+    };
+    b.clone_from(&a);
+    assert!(b.eq_q(&a) && a.eq_q(&b), "CLONE: after clone_from the two are equal");
+    assert_tables_unchanged(&b, &gh);
+    assert_tables_unchanged(&a, &gh);
+    assert_inv(&b);
+    cover!(N < 2 || N != M || same_pairs, "destination held the same pairs before");
+    cover!(true, "reach: end of harness");
+}
+
 // ------------------------------------------------------------------------------------
 // C17
 // ------------------------------------------------------------------------------------
